@@ -177,6 +177,16 @@ def run(run):
         run.holds("C05.R3", h, None, "grid size literal 256 = 2**8: eight halvings to single cells", size=256)
     else:
         run.undecided("C05.R3", h, None, "grid size not established", kind="grid-size")
+    # ---- R5 the corners a grid is computed from are the ones the subdivision produced: no other producer of tiles, and the
+    # only in-place consumer of corners (the compiled bounding-box test behind the tile filters) never sees a tile's own array
+    others = [x for x in toastgeom.tile_construction_sites(project) if x[0].qual not in (T + "._create_level1_tiles", T + "._div4")]
+    if others:
+        f_, c_, kind_ = others[0]
+        run.violated("C05.R5", f_, c_, "%s makes a tile whose corners are not those produced by the subdivision (%s): if they are a mutable array, the bounding-box "
+                     "tile filter (which sorts np.asarray(tile.corners) in place) rewrites the corners the pixel grid is later computed from" % (f_.short, kind_),
+                     kind="corners-rewrapped")
+    else:
+        run.holds("C05.R5", h, None, "tiles reach toast_tile_get_coords with the corners _create_level1_tiles / _div4 gave them")
     # ---- R4
     n = memo.check_module(run, "C05.R4", T, only_funcs=None)
     if not memo.selfcheck():
